@@ -14,7 +14,7 @@ CLAIMED = {
     'C02': ('abstract interpretation + order-cell tables projected on MISSING',
             'Every placement of missing values (None/NaN) for lengths 0..5 in data and auxiliary inputs, all ten tests: missing observation => MISSING (UNKNOWN where undefined); MISSING at a present point only where the property allows.',
             'Library model for mask propagation (rows 2-4, 11, 12). Masked-array carriers are reported under C15.', '4 C02'),
-    'C03': ('order-cell table equality (gross_range_test, valid_range_test)', 'Exhaustive over all orderings of value vs span ends, span order, suspect given/absent, inclusivity flags, bound absent, numbers and datetimes; rejection rules.', 'numpy comparison semantics as modelled; float rounding not decided.', '4 C03'),
+    'C03': ('order-cell table equality (gross_range_test, valid_range_test)', 'Exhaustive over all orderings of value vs span ends, span order, suspect given/absent, inclusivity flags, bound absent, numbers and datetimes; rejection rules.', 'numpy comparison semantics as modelled; float rounding not decided, except through two structural necessary conditions: observations are compared with the parameter itself (not with a number derived from it), and integer data meets whole-number bounds without a float64 conversion.', '4 C03'),
     'C08': ('order-cell table equality (ClimatologyConfig.add/convert/check via climatology_test)', 'Member lists with absolute / month / week / dayofyear / quarter spans, with and without depth and fail spans, overlapping in both orders, depth present / missing / all missing, times on every span end; value in every cell relative to all span ends.', 'Calendar attributes are supplied by the scenario (pandas calendar arithmetic is trusted).', '4 C08'),
     'C09': ('order-cell table equality + statistic identity testing (spike_test)', 'Both methods, all threshold combinations incl. absent / zero / equal / swapped, lengths 1..4 (6 thorough), all missing placements; the compared statistic must be the same function of the three neighbours as the property formula (exact rational identity test).', 'float rounding at a threshold not decided.', '4 C09'),
     'C10': ('order-cell table equality + statistic identity testing (rate_of_change_test, speed_test)', 'Regular and irregular whole-second axes, thresholds incl. zero, missing patterns; |dx|/dt and geodesic(prev,cur)/dt forms including the seconds unit; length-mismatch rejection.', 'geodesic distance is an uninterpreted symmetric function; float rounding not decided.', '4 C10'),
@@ -53,8 +53,8 @@ CLAIMED.update({
             'For all strings: substitution class = complement of [A-Za-z0-9_], replacement CF-safe, leading-digit guard; for concrete runs with illegal stream ids: all write_data / write_axes / include / exclude combinations (by stream id, test name, function): exact column set, CF-safe names, values, rows, roll-up.',
             'pandas DataFrame column assignment as modelled.', '4 C19'),
     'C20': ('abstract interpretation of fx_parser with a pyparsing model; identity of symbolic results with an independent arithmetic evaluator',
-            'Systematic expression family (operator pairs / triples, parenthesisations, unary minus, chains) with symbolic statistics; history independence across failed parses; validator accept / reject table; create_config section wiring and _get_stats mapping.',
-            'pyparsing semantics modelled (sa/models_pp.py, validated at development time against the real library); spline / subsetting numerics of create_config not decided.', '4 C20'),
+            'Systematic expression family (operator pairs / triples, parenthesisations, unary minus, chains) with symbolic statistics; history independence across failed parses; validator accept / reject table and agreement with the evaluator; create_config section wiring and _get_stats mapping; cell selection of _get_subset on grids in four storage orders (2-D and 3-D variables, reached through the creator configuration); knots of the periodic spline (strictly increasing, one row each, at least one day evaluated) for eight kinds of time axis.',
+            'pyparsing semantics modelled (sa/models_pp.py, validated at development time against the real library); the value of the spline is taken to be the constant on constant data (scipy not modelled); NaN cells of the climatology not covered.', '4 C20'),
 })
 
 NOT_YET = {}
